@@ -101,7 +101,15 @@ pub fn errnos_for(e: &Ev) -> Vec<i32> {
             if flags & (O_CREAT | O_WRONLY | O_RDWR) != 0 {
                 vec![EACCES, EMFILE, EROFS]
             } else {
-                vec![EACCES, EMFILE]
+                // a source entry that vanished between being listed and being opened: ENOENT is then not "absent, go
+                // on" but a lost source (a destination probe answered ENOENT would be indistinguishable from a truly
+                // absent entry, and a missing .gitignore is legitimate, so only sources, and not that file)
+                let rel = e.rel.as_deref().unwrap_or("");
+                if (rel == "src" || rel.starts_with("src/")) && !rel.ends_with(".gitignore") {
+                    vec![EACCES, EMFILE, ENOENT]
+                } else {
+                    vec![EACCES, EMFILE]
+                }
             }
         }
         "statx" | "newfstatat" | "fstat" | "stat" | "lstat" => vec![EACCES, EIO],
@@ -117,10 +125,12 @@ pub fn errnos_for(e: &Ev) -> Vec<i32> {
         "write" | "pwrite64" => vec![ENOSPC, EIO],
         "fchmod" | "fchmodat" | "chmod" => vec![EPERM],
         "utimensat" => vec![EPERM],
-        "fsync" | "fdatasync" => vec![EIO],
+        "fsync" | "fdatasync" => vec![EIO, EINVAL],
         "ioctl:FIEMAP" | "ioctl:FICLONE" => vec![EIO],
         "readlink" | "readlinkat" => vec![EACCES, EIO],
         "lseek" => vec![EIO],
+        // EINVAL is what a file system without hole seeking answers
+        "lseek:DATA" | "lseek:HOLE" => vec![EIO, EINVAL],
         // xattr and ownership failures are documented as warnings
         _ => vec![],
     }
@@ -155,7 +165,7 @@ pub fn judge(w: &Worker, scen: &Scenario, ex: &Exec) -> Judgement {
 
 /// jobs: one execution per (site, errno) of each recording run
 pub fn fault_jobs(ctx: &Ctx, scens: &[Scenario]) -> (Vec<(Arc<Scenario>, RunSpec, usize)>, usize, Vec<String>) {
-    let w = Worker::new(48, &ctx.pool.bins);
+    let w = Worker::new(148, &ctx.pool.bins);
     let mut jobs = vec![];
     let mut nsites = 0;
     let mut errs = vec![];
